@@ -249,6 +249,14 @@ func (e *Engine) pipelineObligations(prop string) []*Oblig {
 	switch prop {
 	case "C18":
 		out = append(out, e.lockHeld(prop)...)
+	case "C16":
+		out = append(out, e.joinObligations(prop, []string{"github.com/goblimey/go-ntrip/apps/rtcmlogger.start"})...)
+		out = append(out, e.spawnDisjoint(prop, []string{"github.com/goblimey/go-ntrip/apps/rtcmlogger.start"})...)
+	case "C11":
+		out = append(out, e.joinObligations(prop, []string{
+			"github.com/goblimey/go-ntrip/apps/displayrtcm3.HandleMessages",
+			"github.com/goblimey/go-ntrip/apps/rtcmfilter.HandleMessages",
+		})...)
 	case "C09":
 		out = append(out, e.spawnDisjoint(prop, []string{
 			"(*github.com/goblimey/go-ntrip/file_handler.Handler).Handle",
@@ -298,6 +306,16 @@ func (e *Engine) spawnDisjoint(prop string, fns []string) []*Oblig {
 							continue
 						}
 						if reachableAfter(g, ref) {
+							// sharing is harmless when nobody writes the object: neither the goroutine's
+							// cone nor anything the spawner can reach stores into an object of that type
+							if pt, isPtr := a.Type().Underlying().(*types.Pointer); isPtr {
+								if w := e.storesInto(pt.Elem(), fn, g); w == "" {
+									continue
+								} else {
+									problems = append(problems, fmt.Sprintf("%s: %s uses %s after handing it to the goroutine started at %s, and %s", e.pos(ref), fn.Name(), a.Name(), e.pos(ins), w))
+									continue
+								}
+							}
 							problems = append(problems, fmt.Sprintf("%s: %s uses %s after handing it to the goroutine started at %s", e.pos(ref), fn.Name(), a.Name(), e.pos(ins)))
 						}
 					}
@@ -340,4 +358,249 @@ func reachableAfter(a, b ssa.Instruction) bool {
 		stack = append(stack, x.Succs...)
 	}
 	return false
+}
+
+// ---------------------------------------------------------------- join
+
+// A completion signal of a goroutine body: a close of / send on a channel, or a
+// WaitGroup.Done, that is deferred or is the last effect before every return.
+type signal struct {
+	kind string    // "chan" or "wg"
+	src  ssa.Value // the channel / *WaitGroup as seen inside the goroutine (param, free-var load, ...)
+}
+
+func isEffect(ins ssa.Instruction) bool {
+	switch x := ins.(type) {
+	case *ssa.Call:
+		if b, ok := x.Call.Value.(*ssa.Builtin); ok {
+			switch b.Name() {
+			case "len", "cap", "print", "println":
+				return false
+			}
+		}
+		return true
+	case *ssa.Store, *ssa.Send, *ssa.MapUpdate, *ssa.Go:
+		return true
+	}
+	return false
+}
+
+// lastEffect reports whether ins is executed on every path to a return of fn and
+// nothing with an effect can execute after it.
+func lastEffect(fn *ssa.Function, ins ssa.Instruction) bool {
+	for _, b := range fn.Blocks {
+		for _, r := range b.Instrs {
+			if _, ok := r.(*ssa.Return); ok && !instrDominates(ins, r) {
+				return false
+			}
+		}
+	}
+	for _, b := range fn.Blocks {
+		for _, other := range b.Instrs {
+			if other == ins || !isEffect(other) {
+				continue
+			}
+			if reachableAfter(ins, other) {
+				return false
+			}
+		}
+	}
+	return true
+}
+
+func goroutineSignals(g *ssa.Function) []signal {
+	var out []signal
+	for _, b := range g.Blocks {
+		for _, ins := range b.Instrs {
+			var cc *ssa.CallCommon
+			deferred := false
+			switch x := ins.(type) {
+			case *ssa.Call:
+				cc = &x.Call
+			case *ssa.Defer:
+				cc = &x.Call
+				deferred = true
+			case *ssa.Send:
+				if lastEffect(g, ins) {
+					out = append(out, signal{"chan", x.Chan})
+				}
+				continue
+			default:
+				continue
+			}
+			if bi, ok := cc.Value.(*ssa.Builtin); ok && bi.Name() == "close" {
+				if deferred || lastEffect(g, ins) {
+					out = append(out, signal{"chan", cc.Args[0]})
+				}
+				continue
+			}
+			if callee := cc.StaticCallee(); callee != nil && callee.Pkg != nil && callee.Pkg.Pkg.Path() == "sync" && callee.Name() == "Done" {
+				if deferred || lastEffect(g, ins) {
+					out = append(out, signal{"wg", cc.Args[0]})
+				}
+			}
+		}
+	}
+	return out
+}
+
+// originInSpawner maps a value inside goroutine body g (started by goIns) to the
+// corresponding value in the spawner: parameters map to call arguments, loads of
+// free variables to the captured cell.
+func originInSpawner(v ssa.Value, g *ssa.Function, goIns *ssa.Go) (ssa.Value, bool) {
+	// strip loads
+	viaLoad := false
+	if u, ok := v.(*ssa.UnOp); ok && u.Op.String() == "*" {
+		v = u.X
+		viaLoad = true
+	}
+	switch x := v.(type) {
+	case *ssa.Parameter:
+		for i, p := range g.Params {
+			if p == x && i < len(goIns.Call.Args) {
+				return goIns.Call.Args[i], viaLoad
+			}
+		}
+	case *ssa.FreeVar:
+		if mc, ok := goIns.Call.Value.(*ssa.MakeClosure); ok {
+			for i, fv := range g.FreeVars {
+				if fv == x && i < len(mc.Bindings) {
+					return mc.Bindings[i], viaLoad
+				}
+			}
+		}
+	}
+	return nil, false
+}
+
+// waitsFor: the spawner waits on the signal after the go statement on every path to a return.
+func waitsFor(f *ssa.Function, goIns *ssa.Go, sig signal, origin ssa.Value, viaLoad bool) bool {
+	sameObj := func(v ssa.Value) bool {
+		if viaLoad {
+			if u, ok := v.(*ssa.UnOp); ok && u.Op.String() == "*" {
+				return u.X == origin
+			}
+			return false
+		}
+		return v == origin
+	}
+	for _, b := range f.Blocks {
+		for _, ins := range b.Instrs {
+			var wait bool
+			switch x := ins.(type) {
+			case *ssa.UnOp:
+				if sig.kind == "chan" && x.Op.String() == "<-" && sameObj(x.X) {
+					wait = true
+				}
+			case *ssa.Call:
+				if sig.kind == "wg" {
+					if callee := x.Call.StaticCallee(); callee != nil && callee.Pkg != nil && callee.Pkg.Pkg.Path() == "sync" && callee.Name() == "Wait" && len(x.Call.Args) > 0 {
+						if x.Call.Args[0] == origin {
+							wait = true
+						}
+					}
+				}
+			}
+			if !wait || !reachableAfter(goIns, ins) {
+				continue
+			}
+			// every return reachable after the go statement is dominated by the wait
+			ok := true
+			for _, rb := range f.Blocks {
+				for _, r := range rb.Instrs {
+					if _, isRet := r.(*ssa.Return); isRet && reachableAfter(goIns, r) && !instrDominates(ins, r) {
+						ok = false
+					}
+				}
+			}
+			if ok {
+				return true
+			}
+		}
+	}
+	return false
+}
+
+// joinObligations: every goroutine started by fn has finished its last effect before fn returns.
+func (e *Engine) joinObligations(prop string, keys []string) []*Oblig {
+	var out []*Oblig
+	for _, key := range keys {
+		f := e.fnByKey[key]
+		if f == nil {
+			out = append(out, structOblig("join/"+shortKey(key), "join", "function not found", []string{prop}, []string{"no such function " + key}))
+			continue
+		}
+		var problems []string
+		n := 0
+		for _, b := range f.Blocks {
+			for _, ins := range b.Instrs {
+				goIns, ok := ins.(*ssa.Go)
+				if !ok {
+					continue
+				}
+				n++
+				g := goIns.Call.StaticCallee()
+				if g == nil {
+					if mc, ok := goIns.Call.Value.(*ssa.MakeClosure); ok {
+						g, _ = mc.Fn.(*ssa.Function)
+					}
+				}
+				if g == nil || g.Blocks == nil {
+					problems = append(problems, fmt.Sprintf("%s: cannot resolve the goroutine body", e.pos(ins)))
+					continue
+				}
+				joined := false
+				for _, sig := range goroutineSignals(g) {
+					origin, viaLoad := originInSpawner(sig.src, g, goIns)
+					if origin == nil {
+						continue
+					}
+					if waitsFor(f, goIns, sig, origin, viaLoad) {
+						joined = true
+					}
+				}
+				if !joined {
+					problems = append(problems, fmt.Sprintf("%s: %s returns without waiting for the goroutine %s started here (no receive from a channel the goroutine closes/sends on after its last effect, no WaitGroup.Wait matched by a deferred Done)", e.pos(ins), f.Name(), g.Name()))
+				}
+			}
+		}
+		out = append(out, structOblig("join/"+shortKey(key), "join",
+			fmt.Sprintf("%s waits, on every path to its return, for the completion signal of each of the %d goroutine(s) it starts, so their output is complete when it returns", shortKey(key), n),
+			[]string{prop}, problems))
+	}
+	return out
+}
+
+// storesInto: some function reachable from the spawner or from the spawned goroutine
+// stores into an object of struct type t (returns a description, "" if none).
+func (e *Engine) storesInto(t types.Type, spawner *ssa.Function, goIns *ssa.Go) string {
+	roots := []string{spawner.String()}
+	if callee := goIns.Call.StaticCallee(); callee != nil {
+		roots = append(roots, callee.String())
+	} else if mc, ok := goIns.Call.Value.(*ssa.MakeClosure); ok {
+		if f, ok := mc.Fn.(*ssa.Function); ok {
+			roots = append(roots, f.String())
+		}
+	}
+	for _, fn := range e.coneOf(roots) {
+		for _, b := range fn.Blocks {
+			for _, ins := range b.Instrs {
+				st, ok := ins.(*ssa.Store)
+				if !ok {
+					continue
+				}
+				root := addrRoot(st.Addr)
+				if root == st.Addr {
+					continue // whole-object store through a plain pointer
+				}
+				if pt, ok := root.Type().Underlying().(*types.Pointer); ok && types.Identical(pt.Elem(), t) {
+					if _, fresh := root.(*ssa.Alloc); fresh {
+						continue
+					}
+					return fmt.Sprintf("%s writes a field of a %s at %s", fn.Name(), t.String(), e.pos(ins))
+				}
+			}
+		}
+	}
+	return ""
 }
